@@ -42,7 +42,7 @@ C20TXT = ("A real StandaloneResourceDirectory behind Context.render_to_pipe on t
           "directory tables + timers. After every step endpoint lookup, resource lookup and three filtered lookups are compared with a "
           "model of live registrations; location stability/uniqueness and table agreement are checked; every request answered 4.xx must "
           "leave tables, parameters, links, lookups and the timer queue exactly as they were.")
-E2 = "stateless deviation-bounded schedule exploration (all runs with <= K departures from the default environment answer) of the real stack under a virtual event loop, monitored against a reference model"
+E2 = "stateless deviation-bounded schedule exploration (all runs with <= K departures from the default environment answer) of the real stack under a virtual event loop, monitored against a reference model; every new kind of violation is re-executed in a fork of an interpreter that has executed nothing before it is reported"
 E3 = "explicit-state breadth-first search over operation histories with state deduplication, every transition executed on the real code and compared with a reference model"
 E1 = "bounded-exhaustive enumeration of a closed input space on the real code against an independent reference model"
 TB = "Trusted: CPython asyncio BaseEventLoop._run_once, the virtual loop / fake socket harness, mcv/refcodec.py and the per-property reference model. "
